@@ -60,6 +60,10 @@ CHECKS = {
         'Hypothesis long texts; (b) generated grammars with names/typed rules x laid-out sentences with parseinfo=True: every dict AST and node '
         'must carry (rule, pos, endpos) of an invocation in the reference trace that returned it, and the right start line. Exploration with an exhaustive sub-space.',
         'trusts my splitter (LF, CR, CRLF) and RefPEG\'s trace; offset == len(text) only checked for not raising', 'DESIGN.md §3 C12'),
+    'C13': (
+        'property-based round-trip testing: model -> pretty() -> compile -> structural + behavioural comparison -> pretty() fixpoint; models from compile, JSON reload and g2e (ANTLR) translation; railroads() completion',
+        'Generated full-language grammars (special tokens/patterns/constants incl. multi-line, alerts, meta, $->, directives, keywords, parameters, based rules, decorators) and generated ANTLR grammars: the pretty text compiles, keeps rules/params/bases/decorators/directives/keywords, behaves the same on derived sentences and near misses, is a fixpoint, and railroads() completes. Exploration.',
+        'parser equality is observed on generated inputs; "consistent track width" is observed as: railroads() completes (the renderer asserts the width of every track it assembles)', 'DESIGN.md §3 C13'),
     'C16': (
         'exhaustive enumeration of small rule graphs + Hypothesis-sampled larger graphs against my own left-call-graph / nullability / cycle analysis; fixed input battery under a recursion limit and watchdog',
         'All 420 one-rule graphs and all 1764 two-rule single-alternative graphs (exhaustive), plus sampled 2x2, 3-rule and 4-6-rule graphs: GrammarError with left recursion off iff a left-call cycle exists; is_lrec/is_memo exact off-cycle; every cycle guarded; battery of 15 inputs from every rule terminates. Exploration with an exhaustive sub-space.',
